@@ -828,6 +828,13 @@ func effectsFieldName(fa *ssa.FieldAddr) string {
 // b[o+2]=byte(v>>8), b[o+3]=byte(v), and returns the absolute offset o of the
 // first byte as a linear term (through nested re-slicings).
 func be32ByteStores(cx *bounds.Ctx, fn *ssa.Function, val ssa.Value) (string, bool) {
+	return be32ByteStoresAt(cx, fn, val, nil)
+}
+
+// be32ByteStoresAt: as be32ByteStores, with the rule's own notion of the
+// absolute offset of a (re-)slice of the buffer (abs), when it knows more than
+// the generic one (e.g. that n := copy(buf, prefix) is len(prefix)).
+func be32ByteStoresAt(cx *bounds.Ctx, fn *ssa.Function, val ssa.Value, abs func(v ssa.Value) (bounds.Lin, bool)) (string, bool) {
 	shiftOf := func(v ssa.Value) (int64, bool) {
 		// byte(x >> k) or byte(x), x the value (possibly converted)
 		for {
@@ -873,6 +880,13 @@ func be32ByteStores(cx *bounds.Ctx, fn *ssa.Function, val ssa.Value) (string, bo
 			return
 		}
 		_, off := absSliceStart(cx, ia.X)
+		if abs != nil {
+			o2, okA := abs(ia.X)
+			if !okA {
+				return
+			}
+			off = o2
+		}
 		at[k] = off.Add(cx.Lin(ia.Index), 1).String()
 		atLin[k] = off.Add(cx.Lin(ia.Index), 1)
 	})
